@@ -45,11 +45,63 @@ func c16Gen(g *G) {
 	if g.Thorough() {
 		g.Emit("c16.run o,o N100000(x);N400000(p);g1;w1;c(p,a1)", "nested-containers-deep")
 	}
+	// well-formed service messages whose enumerated field carries a value outside the specification's list:
+	// bad_msg_notification with every error_code 0..255 for a message the client does not know (in containers of
+	// 64), with negative and large codes, for a pending request, for one of the client's own acknowledgements;
+	// bad_server_salt with other codes than 48
+	for lo := 0; lo < 256; lo += 64 {
+		var in []string
+		for c := lo; c < lo+64; c++ {
+			in = append(in, fmt.Sprintf("b/%d", c))
+		}
+		g.Emit("c16.run o,o c("+strings.Join(in, ",")+");g1;w1;a1", "notification-code-outside-the-list")
+	}
+	g.Emit("c16.run o,o b/-1;b/-2147483648;b/2147483647;b/65;b/256;b/4294967295;b/1000000;g1;w1;a1", "notification-code-outside-the-list")
+	g.Emit("c16.run o,o,o g0;w1;B0/100;j;u;W;Bk0/255;g2;w2;B2/-1;j;g1;w3;a1", "notification-code-outside-the-list")
+	g.Emit("c16.run o,o g0;w1;r0/2000/0;w2;r0/2001/255;w3;r0/2002/-7;w4;a0;j;u;W;rk0/2003/99;g1;w5;a1", "notification-code-outside-the-list")
+	// a probe that has encoded its request and waits for the write lock (a write is in progress) while the
+	// receive loop acknowledges ordinary content-related messages, with every goroutine of the client on one
+	// processor (P1) and on all: the probe's request reaches the server as encoded and the probe completes
+	g.Emit("c16.run o,o P1;ywq:3000:1;g0;s400;g1;s400;u;w2;a0;a1", "encoded-request-waits-for-write-lock")
+	g.Emit("c16.run o,o P1;g0;w1;ywk:3000:1;n77;s400;g1;s400;x;w2;a1;a0", "encoded-request-waits-for-write-lock")
+	g.Emit("c16.run o,o ywq:3000:1;g0;s400;g1;s400;c(u,x,n78);w2;a1;a0", "encoded-request-waits-for-write-lock")
+	nw := g.N(6, 120)
+	for i := 0; i < nw; i++ {
+		// caller 0's write (or the write of an acknowledgement) is slow; the probe encodes meanwhile; one to three
+		// content-related messages arrive meanwhile
+		var plan []string
+		if r.Bool() {
+			plan = append(plan, "P1")
+		}
+		hold := 2000 + r.Intn(2500)
+		if r.Intn(3) == 0 {
+			plan = append(plan, "g0", "w1", fmt.Sprintf("ywk:%d:1", hold), "u", "s300")
+		} else {
+			plan = append(plan, fmt.Sprintf("ywq:%d:1", hold), "g0", "s300")
+		}
+		plan = append(plan, "g1", fmt.Sprintf("s%d", 200+r.Intn(300)))
+		for j := 0; j < 1+r.Intn(3); j++ {
+			plan = append(plan, []string{"u", "x", "n91", "q12345", "c(u,p)"}[r.Intn(5)])
+		}
+		plan = append(plan, "w2", "a1", "a0")
+		g.Emit("c16.run o,o "+strings.Join(plan, ";"), "encoded-request-waits-for-write-lock")
+	}
 	n := g.N(60, 1500)
 	for i := 0; i < n; i++ {
 		var plan []string
 		reqs := 0
 		hostile := hostile
+		if r.Intn(2) == 0 {
+			// a notification with an arbitrary error_code among the hostile items of this scenario
+			code := int64(r.Intn(256))
+			switch r.Intn(6) {
+			case 0:
+				code = -1 - int64(r.Intn(1<<31))
+			case 1:
+				code = int64(r.U64() % (1 << 32))
+			}
+			hostile = append(append([]string{}, hostile...), fmt.Sprintf("b/%d", code), fmt.Sprintf("b/%d", 65+r.Intn(191)))
+		}
 		if r.Intn(3) == 0 {
 			// make sure the client has written an acknowledgement the server can name
 			plan = append(plan, "u", "W")
